@@ -235,6 +235,9 @@ def run_check(prop: str, tier: str, seed: int) -> int:
     env["PYTHONPATH"] = REPO + os.pathsep + HERE
     env["PYTHONHASHSEED"] = "0"
     env["VERIF_REPO"] = REPO
+    if os.environ.get("VERIF_BUDGET_S"):
+        # exploration aid: a shorter budget than the tier's (the floor then decides between held and inconclusive as usual)
+        plan = dict(plan, budget_s=min(plan.get("budget_s", 60), float(os.environ["VERIF_BUDGET_S"])))
     env["VF_DEADLINE"] = str(t_start + plan.get("budget_s", 60))
 
     def spawn(shard, start, only="-"):
